@@ -38,14 +38,20 @@ from vlib.runner import Result, h64
 PROPERTY = 'C19'
 LEVEL = 'exploration'
 RULE = ('Programs: own generator of watermarked FPy source (each statement binds a program-unique name; nested for/while/if/with '
-        'blocks, helper calls incl. nested, in loop iterables, if- and while-conditions, rounding blocks over 16 contexts incl. bound, '
-        'cast, non-variable and mixed bodies), 7 foci.  Single-step: every aimable strategy (unroll_for, unroll_while, split, inline, '
-        'unfold_special/neg_zero/overflow, float_to_fixed, rescale_fixed, insert_round, Rewrite with an expression and a statement '
-        'rule) with its parameters; for every site index j: structural diff along the path of site j, watermark set, reported edit, '
-        'forwarding of every statement vs a reference model; out-of-range and non-index `where`; where=None and where=cursor vs '
-        'index-wise composition; listing vs own candidate scan.  Histories: RuleBasedStateMachine (take cursor / apply aimed, '
-        'unaimed and non-reporting passes / advance cursor / aim with old cursor), invariant: a held cursor raises '
-        'TransformReferenceError or resolves to statements whose watermarks are a non-empty subset of the origin statement\'s.  '
+        'blocks, helper calls incl. nested ones, in loop iterables, if- and while-conditions, asserts, indexed assignments and '
+        'expression statements; rounding blocks over 16 contexts incl. bound, cast, non-variable, mixed and returned bodies), 7 foci; '
+        'plus a bounded enumeration of every arrangement of sites / refusals / other statements (<= 2 top-level items, nesting <= 2; '
+        '2068 shapes, all in thorough, a seed-rotated third of the for-loop shapes and all others in quick).  Single-step: every '
+        'aimable strategy (unroll_for, unroll_while, split, inline, unfold_special/neg_zero/overflow, float_to_fixed, rescale_fixed, '
+        'insert_round, Rewrite with an expression, a one-statement and a two-statement rule) with its parameters; for every site '
+        'index j: structural diff along the path of site j, watermark set, reported edit, forwarding of every statement vs a '
+        'reference model; out-of-range and non-index `where`; where=None, where=cursor, where=statement-of-an-expression-site and '
+        'where=region vs index-wise composition; cursors naming no site; `within`; listing vs own candidate scan.  Histories: '
+        'RuleBasedStateMachine (take cursor on a statement / site / region / call expression; aim by index, by old cursor, at '
+        'nothing; shift-then-re-aim; reporting and non-reporting unaimed passes; advance a cursor mid-chain; cursors of unrelated '
+        'programs) and, for each enumerated shape, every history of <= 2 aimed steps with cursors held on all statements.  '
+        'Invariant: a held cursor raises TransformReferenceError or resolves to statements whose watermarks are a non-empty subset '
+        'of the origin statement\'s, and exactly where the reference model replayed over every edit log says.  '
         'Non-trivial = (program, strategy) with >= 2 sites in one block, nested sites or a refusal between two sites, or a history '
         'with >= 2 edits before the block of a held cursor; distinct by (source hash, strategy parameters / step list).')
 ASSUMPTIONS = [
@@ -55,6 +61,13 @@ ASSUMPTIONS = [
     'where=cursor_j is compared with the composition of all sites at or beneath site j, and with where=j only when there is one.',
     'A pass whose EditLog has exprs_preserved=False (lift_context) may rewrite expressions of statements it does not report '
     '(EditLog docstring); for those, untouched statements are compared modulo expressions.',
+    'Statements one edit consumed together (a multi-statement rewrite window) share their image (EditLog._forward_region), so '
+    'their watermarks are legitimate company for a cursor on one of them.',
+    'unroll_for and split drop a loop whose iterable is statically empty, leaving only `t = <iterable>` (their docstrings); a site '
+    'or a held cursor may then lose all watermarks (counted as statically-empty-loop-dropped).',
+    'Forwarding semantics taken from the docstrings of Edit / EditLog.forward / Function.forward: later siblings shift by '
+    'inserted - removed, a replaced statement forwards to its region, a statement inside a replaced one or a deleted one does '
+    'not forward, a pass that reports nothing stops the walk; fpy2 is required to agree with this model, not merely to raise.',
     'where=None is compared with applying the sites one by one in reverse listing order, name-blind (shape of statements and '
     'expressions, multiset of bound watermarks, evaluation on 2 inputs); skipped for one-level inlining of a '
     'helper that itself calls helpers (new sites appear before the remaining ones).',
